@@ -191,6 +191,22 @@ func corpus() []entry {
 		out = append(out, entry{Name: "cycle timer beside a task, then a timer that never fires", G: b.G, Timer: true,
 			Script: []drive.Stim{ans(), clk(10, "R3/PT10S"), clk(10, ""), ans(), clk(30, "")}})
 	}
+	// several start events (each StartWith registers with the instance's tracer)
+	{
+		b := gen.NewB()
+		mrg := b.Add(gen.KXor)
+		for i := 0; i < 3; i++ {
+			st := b.Add(gen.KStart)
+			t := b.Add(gen.KTask)
+			b.Connect(st, t)
+			b.Connect(t, mrg)
+		}
+		t := b.Add(gen.KTask)
+		en := b.Add(gen.KEnd)
+		b.Connect(mrg, t)
+		b.Connect(t, en)
+		add("three start events merging", b.G, nil, ans(), ans(), ans(), ans(), ans(), ans())
+	}
 	// error modes of task answers: a decision that never comes, retry, skip, exit
 	add("error answer whose handler decision is pending", lower(seq(&gen.Block{K: "par", Def: -1, Kids: []*gen.Block{seq(task()), seq(task(), task())}}, task())), nil, ansK("pending", 0), ans(), ans())
 	add("retry, skip, exit and plain error answers", lower(seq(task(), task(), &gen.Block{K: "par", Def: -1, Kids: []*gen.Block{seq(task()), seq(task())}}, task())), nil,
